@@ -46,10 +46,11 @@ Interpret(t, o) ==
          [] OTHER -> [k |-> Kind(t), o |-> o]
 
 (* element lookup: enterprise 0 from the snapshot, other enterprises from Ext *)
-(* (a function <<pen, id>> -> type name supplied by the configuration)        *)
+(* (a function <<pen, id>> -> type name supplied by the configuration).       *)
+(* Enterprise numbers are 32-bit: they are carried as 4 octets.               *)
 HasIANA(id) == id \in 1..MaxIANA /\ IANAType[id] # "none"
 ElemType(Ext, pen, id) ==
-  IF pen = 0 THEN (IF HasIANA(id) THEN IANAType[id] ELSE "none")
+  IF pen = <<0, 0, 0, 0>> THEN (IF HasIANA(id) THEN IANAType[id] ELSE "none")
   ELSE IF <<pen, id>> \in DOMAIN Ext THEN Ext[<<pen, id>>] ELSE "none"
 (* the type the decoder works with: names it does not know decode as raw      *)
 EffType(t) == IF t \in FieldTypeNames THEN t ELSE "unknown"
